@@ -22,8 +22,10 @@ import sys
 sys.path.insert(0, str(__import__("pathlib").Path(__file__).resolve().parent))
 from proto_common import *  # noqa
 
-SEEDS = {"A": base64.b64encode(b"seed-A-seed-A").decode().rstrip("="), "B": base64.b64encode(b"seed-B-seed-B").decode().rstrip("=")}
-BASE = {"tiny": False, "lit": False, "seed": "none", "gogarble": "all", "ctrl": False, "tags": False, "tagsrt": False, "xname": False, "xval": "none"}
+# two seeds that differ only in their last byte (garble documents that only part of a long seed is used:
+# a key that hashes a prefix of the seed must not make them collide)
+SEEDS = {"A": base64.b64encode(b"seed-seed-seed-A").decode().rstrip("="), "B": base64.b64encode(b"seed-seed-seed-B").decode().rstrip("=")}
+BASE = {"tiny": False, "lit": False, "seed": "none", "gogarble": "all", "ctrl": False, "tags": False, "tagsrt": False, "xname": "none", "xval": "none"}
 
 
 def C(**kw):
@@ -35,8 +37,9 @@ def C(**kw):
 CFGS = {
     "Base": C(), "CTiny": C(tiny=True), "CLit": C(lit=True), "CSeedA": C(seed="A"), "CSeedB": C(seed="B"),
     "CSub": C(gogarble="sub"), "CCtrl": C(ctrl=True), "CTags": C(tags=True), "CTagsRt": C(tagsrt=True),
-    "CX1": C(xname=True, xval="v1"), "CX2": C(xname=True, xval="v2"),
-    "CLitX1": C(lit=True, xname=True, xval="v1"), "CLitX2": C(lit=True, xname=True, xval="v2"), "CTinyLit": C(tiny=True, lit=True),
+    "CX1": C(xname="v", xval="v1"), "CX2": C(xname="v", xval="v2"),
+    "CLitX1": C(lit=True, xname="v", xval="v1"), "CLitX2": C(lit=True, xname="v", xval="v2"),
+    "CSeedTiny": C(seed="A", tiny=True), "CLitXc": C(lit=True, xname="c", xval="v1"), "CLitXvc": C(lit=True, xname="vc", xval="v1"), "CTinyLit": C(tiny=True, lit=True),
 }
 
 
@@ -63,8 +66,13 @@ def concretise(cfg):
     tags = (["prototag"] if cfg["tags"] else []) + (["debuglog"] if cfg.get("tagsrt") else [])   # debuglog selects other files of package runtime
     if tags:
         go.append("-tags=" + ",".join(tags))
-    if cfg["xval"] != "none":
-        go.append("-ldflags=-X=main.version=" + cfg["xval"])
+    if cfg["xname"] != "none":
+        val = cfg["xval"]
+        targets = {"v": ["main.version"], "c": ["main.commit"], "vc": ["main.version", "main.commit"]}[cfg["xname"]]
+        if cfg["xname"] == "v" and val == "v2":
+            go.append("-ldflags=-X main.version=" + val)          # the two-word spelling of -X
+        else:
+            go.append("-ldflags=" + " ".join(f"-X={t}={val}" for t in targets))
     return g, env, go
 
 
@@ -100,7 +108,7 @@ def probe_key_fields(work, chk):
     src = write_proto(work / "probe-src")
     sb = Sandbox(work / "probe-sb", template=True)
     trace = work / "probe.ndjson"
-    g, env, go = concretise(C(tiny=True, lit=True, seed="A", ctrl=True, xname=True, xval="v1"))
+    g, env, go = concretise(C(tiny=True, lit=True, seed="A", ctrl=True, xname="v", xval="v1"))
     env["GOGARBLE"] = "nomatch.example/none"
     r = sb.garble(g + ["build"] + go + ["."], cwd=src, env=env, trace=trace, timeout=600)
     tails = [e for e in read_trace(trace) if e["ev"] == "hash-input"]
@@ -236,25 +244,28 @@ def main(tier, seed):
     def describe(h):
         return [cfg_name(a["cfg"]) if a["a"] == "build" else f"edit-{a.get('kind', 'api')}:{a['p']}" for a in h if a["a"] in ("build", "edit")]
 
-    # (i) the model with the recorded key fields, under the what-if that the reflection-fact entries were keyed
-    #     by the whole import closure: any counterexample is a NEW staleness (a key that misses an input)
+    # (i) the model as the code is, with the recorded key fields; function bodies are edited in main and in its direct
+    #     import only: any counterexample is a NEW staleness (a key that misses an input)
     r, lead = run_model("BuildCache-c06.cfg", edits2=(tier == "thorough"))
     if lead:
         chk.extra["tlc_lead"] = {"invariant": r.violated, "history": describe(lead)}
         log(f"TLC lead ({r.violated}): {chk.extra['tlc_lead']['history']}")
-    # (ii) the model as the code is (entries keyed by the package's own GarbleActionID): TLC's counterexample
-    #      is the lead behind finding F19; it is replayed below like any other history
+    # (ii) the same with body edits of an INDIRECT dependency too (two configurations, unseeded and seeded)
     r2, lead_asis = run_model("BuildCache-c06-asis.cfg")
-    chk.extra["tlc_lead_asis"] = {"invariant": r2.violated, "history": describe(lead_asis) if lead_asis else None}
-    # (iii) what-if: the magic derived from runtime's action ID (the code before the fix of F20) must be rejected
+    if lead_asis:
+        chk.extra["tlc_lead_indirect_body_edit"] = {"invariant": r2.violated, "history": describe(lead_asis)}
+    # (iii) what-ifs that must be rejected: entries keyed by the package's own action ID only (before the fix of F19a),
+    #       the magic derived from runtime's action ID (before the fix of F20); their histories are replayed on the real
+    #       code as regression guards (they must NOT reproduce)
     r3, lead_magic = run_model("BuildCache-c06-magicrt.cfg")
-    chk.extra["whatif_magic_from_runtime_violates"] = r3.violated
-    if not r3.violated:
-        raise Inconclusive("BuildCache.tla what-if (magic from runtime) is no longer rejected: the invariants do not bite")
+    r4, lead_own = run_model("BuildCache-c06-ownkey.cfg")
+    chk.extra["whatif_rejected"] = {"magic_from_runtime": r3.violated, "facts_keyed_by_own_id": r4.violated}
+    if not r3.violated or not r4.violated:
+        raise Inconclusive("a BuildCache.tla what-if is no longer rejected: the invariants do not bite")
 
     # ---- B2: histories on real caches
     tool = make_linker_cache(work)
-    names = ["Base", "CTiny", "CLit", "CSeedA", "CSeedB", "CSub", "CCtrl", "CTags", "CTagsRt", "CLitX1", "CLitX2", "CX1"]
+    names = ["Base", "CTiny", "CLit", "CSeedA", "CSeedB", "CSub", "CCtrl", "CTags", "CLitX1", "CLitX2", "CLitXc", "CLitXvc", "CX1"]
     if tier == "thorough":
         names += ["CX2", "CTinyLit"]
     order = list(names)
@@ -272,8 +283,13 @@ def main(tier, seed):
     # the magic what-if's history is replayed on the real code too: it must NOT reproduce (regression guard for F20)
     if lead_magic:
         histories["lead-magic"] = as_history(lead_magic)
+    if lead_own:
+        histories["lead-ownkey"] = as_history(lead_own)
+    # a tag that selects other files of package runtime, back and forth (kept out of the long histories)
+    histories["rt-tag"] = [("build", "Base"), ("build", "CTagsRt"), ("build", "Base"), ("build", "CTagsRt"), ("build", "CTagsRt")]
     # body edit of an indirect dependency under the default configuration and under -seed
-    histories["bodyedit"] = [("build", "Base"), ("build", "CSeedA"), ("edit", "leaf", "body"), ("build", "Base"), ("build", "CSeedA")]
+    histories["bodyedit"] = [("build", "Base"), ("build", "CSeedA"), ("build", "CSeedTiny"), ("edit", "leaf", "body"),
+                             ("build", "Base"), ("build", "CSeedA"), ("build", "CSeedTiny")]
     if tier == "thorough":
         for i in range(3):
             h = []
@@ -305,7 +321,7 @@ def main(tier, seed):
     for key, lst in groups.items():
         shas = {res.get("sha") for _, res in lst}
         if tier == "thorough" or len(shas) > 1 or len(lst) == 1 or key[0] in ("Base",) or any(":body" in e for e in key[1]) \
-                or any(key[0] in [h[1] for h in histories.get(ln, [])] for ln in ("lead", "lead-asis", "lead-magic")):
+                or any(key[0] in [h[1] for h in histories.get(ln, [])] for ln in ("lead", "lead-asis", "lead-magic", "lead-ownkey", "rt-tag")):
             need.append(key)
     extra_refs = [k for k in groups if k not in need][:2]
     need += extra_refs
@@ -324,6 +340,7 @@ def main(tier, seed):
                 before.append(x["cfg"])
             witness = {"config": cfgname, "edits": list(edits), "history": hname, "built_before": sorted(set(before)),
                        "body_edit_of_indirect_dep": any(e in ("leaf:body",) for e in edits) and cfgname in before and CFGS[cfgname]["gogarble"] == "all",
+                       "seeded": CFGS[cfgname]["seed"] != "none", "tiny": CFGS[cfgname]["tiny"],
                        "lit_and_xname_changed": bool(CFGS[cfgname]["lit"] and any(CFGS[b]["lit"] and CFGS[b]["xname"] != CFGS[cfgname]["xname"] for b in before))}
             chk.case([cfgname, edits, sorted(set(before))], sample=witness if len(before) in (1, 5) else None, nontrivial=bool(before))
             files = {"history.json": json.dumps(histories[hname]), "result.json": json.dumps({k: v for k, v in res.items()}, default=str)}
